@@ -8,8 +8,13 @@ counter) is preserved on every exit.  `update` is proved by the loop rule "body 
 Invariant preservation by every mutator gives the statement for all operation sequences (induction, no bound).
 
 Bounded part (bnd, labelled): the operations implemented in C by OrderedDict and the glue that depends on them
-(construction from mappings / pairs / keywords, copy, __eq__/__ne__, merge operators, fromkeys, popitem,
-canonical ordering) against a reference model, all operation sequences up to a stated length.
+(construction from mappings / pairs / keywords, copy, __eq__/__ne__, merge operators, fromkeys, popitem)
+against a reference model, all operation sequences up to a stated length.
+
+Canonical ordering (vc/pyvc/listalg): the real body of canonsort_keys is evaluated to a term over filter / sorted / + and three
+quantifier-free VCs are discharged for ALL key lists and ALL declared orders: the result is a permutation of the keys, whenever x
+stands before y the statement allows it (priority names in declared order, then the others alphabetically), no KeyError.  The three
+one-line callers (sorted_keys, sorted_items, canonsort_items) by exact statement shape.
 """
 from __future__ import annotations
 
@@ -439,6 +444,121 @@ def concretise_update():
     return None, None
 
 
+def canon_obligations(rep):
+    """the canonical key ordering: canonsort_keys (real body -> list-algebra term -> three quantifier-free VCs), and the three
+    one-line callers by statement shape"""
+    import ast as _ast
+    from vc.pyvc import listalg as LA
+    obs = []
+    fn = "caselessdict:canonsort_keys"
+    mod, node = source.find(fn)
+    names = {"perm": "result_is_a_permutation_of_the_keys", "order": "priority_names_in_declared_order_then_the_others_alphabetically",
+             "noraise": "raises_nothing"}
+    if node is None:
+        return [Obligation(f"{PID}.canon.canonsort_keys.{v}", fn, "z3", UNDECIDED, detail="function not found") for v in names.values()]
+    rep.functions.add(fn)
+    lines = source.lines_of(node)
+    try:
+        params = [a.arg for a in node.args.args]
+        desc, ctx, goals = LA.vcs(node, params[0], params[1])
+    except LA.Unsupported as e:
+        return [Obligation(f"{PID}.canon.canonsort_keys.{v}", fn, "z3", UNDECIDED, lines=lines,
+                           detail=f"outside the list algebra (filter / sorted / +): {e}") for v in names.values()]
+    for key, goal in goals.items():
+        if key not in names:
+            continue
+        t0 = time.time()
+        sol = z3.Solver()
+        sol.set(timeout=TIMEOUT_MS[rep.tier])
+        sol.add(*ctx.hyps())
+        sol.add(z3.Not(goal))
+        r = sol.check()
+        ob = Obligation(f"{PID}.canon.canonsort_keys.{names[key]}", fn, "z3", PROVED, time.time() - t0, f"result term: {desc}", lines=lines)
+        if r == z3.sat:
+            m = sol.model()
+            ev = lambda t: m.eval(t, model_completion=True)  # noqa: E731
+            import re as _re
+            unesc = lambda t: _re.sub(r"\\u\{([0-9a-fA-F]+)\}", lambda mm: chr(int(mm.group(1), 16)), t)  # noqa: E731
+            xs, ys = unesc(ev(ctx.x).as_string()), unesc(ev(ctx.y).as_string())
+            info = {"x": xs, "y": ys, "x_in_order": z3.is_true(ev(ctx.in_map(ctx.x))), "y_in_order": z3.is_true(ev(ctx.in_map(ctx.y))),
+                    "rank_x": ev(ctx.rank(ctx.x)).as_long(), "rank_y": ev(ctx.rank(ctx.y)).as_long(), "n_keys": ev(ctx.n).as_long(),
+                    "order_len": ev(ctx.order_len).as_long()}
+            ob.status = REFUTED
+            ob.detail = f"result term: {desc}; z3 model (complete: the VC is quantifier free): {info}"
+            w, msg = canon_concretise(info)
+            if w is not None:
+                ob.witness, ob.replay = w, {"confirmed": True, "native": msg}
+            else:
+                ob.status = UNDECIDED
+                ob.detail += " -- the model does not reproduce on the real function and the small native domain has no failing input"
+        elif r != z3.unsat:
+            ob.status, ob.detail = UNDECIDED, f"z3: {r} ({sol.reason_unknown()})"
+        obs.append(ob)
+    # reachability: each of the three cases of the ordering clause has a pair (x before y) in the result
+    t0 = time.time()
+    x, y = ctx.x, ctx.y
+    term_before = None
+    try:
+        term = LA.eval_function(node, params[0], params[1])
+        term_before = LA.before(x, y, term, ctx)
+    except LA.Unsupported:
+        pass
+    cases = {"both priority names": z3.And(ctx.in_map(x), ctx.in_map(y), x != y), "priority then other": z3.And(ctx.in_map(x), z3.Not(ctx.in_map(y))),
+             "both other names": z3.And(z3.Not(ctx.in_map(x)), z3.Not(ctx.in_map(y)), x != y)}
+    missing = []
+    for cname, c in cases.items():
+        sol = z3.Solver()
+        sol.set(timeout=TIMEOUT_MS[rep.tier])
+        sol.add(*ctx.hyps())
+        sol.add(c, term_before if term_before is not None else z3.BoolVal(False))
+        if sol.check() != z3.sat:
+            missing.append(cname)
+    obs.append(Obligation(f"{PID}.canon.canonsort_keys.reachable", fn, "z3", PROVED if not missing else UNDECIDED, time.time() - t0,
+                          "all three cases of the ordering clause occur" if not missing else f"no pair for: {missing}", lines=lines))
+    # callers (statement shapes)
+    shapes = {"caselessdict:CaselessDict.sorted_keys": ["return canonsort_keys(self.keys(), self.canonical_order)"],
+              "caselessdict:CaselessDict.sorted_items": ["return canonsort_items(self, self.canonical_order)"],
+              "caselessdict:canonsort_items": ["return [(k, dict1[k]) for k in canonsort_keys(dict1.keys(), canonical_order)]"]}
+    for target, want in shapes.items():
+        mod2, n2 = source.find(target)
+        ob = Obligation(f"{PID}.canon.{target.split(':')[1]}.is_canonsort_keys_of_the_keys_and_the_class_order", target, "fin", UNDECIDED,
+                        lines=source.lines_of(n2) if n2 is not None else None)
+        if n2 is not None:
+            rep.functions.add(target)
+            body = [_ast.unparse(st) for st in source.strip_docstring(n2.body)]
+            if body == want:
+                ob.status, ob.detail = PROVED, "body is exactly: " + want[0]
+            else:
+                ob.detail = f"body is {body!r}: outside the statement shape (the stand-in decides)"
+        obs.append(ob)
+    return obs
+
+
+def canon_concretise(info):
+    """a concrete input from the model (order with x / y at their ranks, keys = x, y and fillers up to n_keys), else the small domain"""
+    from props import C17_bnd
+    try:
+        ln = max(info["order_len"], (info["rank_x"] + 1) if info["x_in_order"] else 0, (info["rank_y"] + 1) if info["y_in_order"] else 0)
+        if ln <= 64 and info["n_keys"] <= 64:
+            order = [f"P{i:02d}" for i in range(ln)]
+            if info["x_in_order"]:
+                order[info["rank_x"]] = info["x"]
+            if info["y_in_order"]:
+                order[info["rank_y"]] = info["y"]
+            keys = [info["x"]] + ([info["y"]] if info["y"] != info["x"] else [])
+            keys += [f"zz{i}" for i in range(max(0, info["n_keys"] - len(keys)))]
+            for ks in (keys, list(reversed(keys))):
+                msg = C17_bnd.canon_check(ks, tuple(order))
+                if msg:
+                    return {"canon": True, "keys": ks, "order": order}, msg
+    except Exception:  # noqa
+        pass
+    fails, _ = C17_bnd.canon_enum(1)
+    if fails:
+        return fails[0]["witness"], fails[0]["detail"]
+    return None, None
+
+
 def run(rep: common.Report):
     eng = make_engine()
     rep.trust(
@@ -497,6 +617,15 @@ def run(rep: common.Report):
         import traceback
         traceback.print_exc()
         rep.add(Obligation(f"{PID}.__eq__", "caselessdict:CaselessDict.__eq__", "z3", ERROR, detail=repr(e)))
+    try:
+        for ob in canon_obligations(rep):
+            rep.add(ob)
+    except Exception as e:  # noqa
+        import traceback
+        traceback.print_exc()
+        rep.add(Obligation(f"{PID}.canon", "caselessdict:canonsort_keys", "z3", ERROR, detail=repr(e)))
+    rep.assume("canonsort_keys: sorted() is assumed to return a stable ascending permutation (CPython); str order = code points (z3 str.<=); "
+               "the declared order has no duplicate names; tuples compare lexicographically")
     rep.extra["solver_seconds_path_pruning"] = round(eng.solver_time, 3)
     rep.explanation = __doc__
     # assumed-contract cross-checks (a failure is a checker error, exit 3, never a violation)
@@ -511,7 +640,7 @@ def run(rep: common.Report):
     from props import C17_bnd
     b = Bounded("C17.bnd.operation_sequences", "caselessdict:CaselessDict (all mapping operations incl. C-level ones)",
                 "all sequences of <= 2 operations from %d operation instances over keys %r on CaselessDict and Parameters "
-                "(thorough: also a subclass with canonical_order and Event), plus %d seeded random sequences of 3..40 operations"
+                ", a subclass with canonical_order and Event, plus %d seeded random sequences of 3..40 operations; canonsort_keys on all orders of <= 4 of 6 names x all key lists of <= 3 of 8 names; the declared orders of Calendar/Event/Todo/Timezone/Alarm/vRecur with <= 2 priority + <= 2 other names"
                 % (len(C17_bnd.op_instances()), C17_bnd.KEYS, 300 if rep.tier == "quick" else 5000))
     t0 = time.time()
     try:
@@ -522,8 +651,8 @@ def run(rep: common.Report):
         b.error = repr(e)
     b.seconds = time.time() - t0
     rep.bounded.append(b)
-    rep.assume("bounded: construction from mappings/pairs/keywords, copy, popitem, merge operators, fromkeys, ==/!=, "
-               "canonical ordering are checked only on the stated operation sequences (bnd), not proved")
+    rep.assume("bounded: construction from mappings/pairs/keywords, copy, popitem, merge operators, fromkeys, ==/!= "
+               "are checked only on the stated operation sequences (bnd), not proved")
 
 
 def replay(payload: dict) -> int:
@@ -531,6 +660,15 @@ def replay(payload: dict) -> int:
     if not w:
         print("replay: no concrete input recorded; verifier output:", payload.get("verifier_output"))
         return 1
+    if w.get("canon"):
+        from props import C17_bnd
+        if "class" in w:
+            fails, _ = C17_bnd.canon_enum(50)
+            msg = next((f["detail"] for f in fails if f["witness"] == w), None)
+        else:
+            msg = C17_bnd.canon_check(w["keys"], None if w.get("order") is None else tuple(w["order"]))
+        print("replay:", msg or "no violation on the current tree")
+        return 1 if msg else 0
     if w.get("method") == "update":
         from props import C17_bnd
         from icalendar.caselessdict import CaselessDict
